@@ -599,11 +599,24 @@ def escaping_mutable_defaults(fnode):
     defs = [None] * (len(params) - len(a.defaults)) + list(a.defaults)
     cand = {}
     for p_, d in list(zip(params, defs)) + list(zip(a.kwonlyargs, a.kw_defaults)):
-        if d is not None and (isinstance(d, (ast.List, ast.Dict, ast.Set)) or (isinstance(d, ast.Call) and isinstance(d.func, ast.Name) and d.func.id in ('list', 'dict', 'set', 'Monitor', 'defaultdict'))):
+        if d is not None and (isinstance(d, (ast.List, ast.Dict, ast.Set)) or (isinstance(d, ast.Call) and isinstance(d.func, (ast.Name, ast.Attribute)))):
+            # a literal container, or ANY object constructed once at definition time (Monitor(), dict(), ...)
+            if isinstance(d, ast.Call) and isinstance(d.func, ast.Name) and d.func.id in ('tuple', 'frozenset', 'float', 'int', 'str', 'bool'):
+                continue
             cand[p_.arg] = d
     if not cand:
         return []
     out = []
+    _HARMLESS = ('type', 'len', 'isinstance', 'list', 'tuple', 'dict', 'iter', 'sorted', 'enumerate', 'zip', 'set', 'id', 'bool', 'str', 'repr', 'print',
+                 'min', 'max', 'sum', 'any', 'all', 'hasattr', 'getattr', 'asarray', 'array', 'copy', 'deepcopy')
+    for n in ast.walk(fnode):
+        if isinstance(n, ast.Call):
+            callee = n.func.id if isinstance(n.func, ast.Name) else (n.func.attr if isinstance(n.func, ast.Attribute) else '')
+            if callee in _HARMLESS or callee in _MUTATORS:
+                continue
+            for arg in list(n.args) + [k.value for k in n.keywords]:
+                if isinstance(arg, ast.Name) and arg.id in cand:
+                    out.append((arg.id, 'handed to %s()' % callee, n))
     rebound_first = set()
     # a parameter that is unconditionally rebound to a fresh object before any use is harmless: not modelled (conservative)
     for n in ast.walk(fnode):
